@@ -26,7 +26,7 @@ from dst.world import catalogue
 
 PROP = 'C05'
 LEVEL = 'exploration'
-COUNTS = {'quick': 340, 'thorough': 6000}
+COUNTS = {'quick': 400, 'thorough': 6000}
 BUDGET = {'quick': 110, 'thorough': 1500}
 TIMEOUT = 240
 SHRINK_LISTS = [['segments_cut']]
@@ -63,7 +63,7 @@ def plans(seed, tier, count):
            'ieee14/ieee14_ieesgo.xlsx', 'wecc/wecc_gencls.xlsx', 'ieee39/ieee39_full.xlsx', 'ieee14/ieee14_ieeet1.xlsx',
            'ieee14/ieee14_exac4.xlsx', 'ieee14/ieee14_esst1a.xlsx']
     for k, c in enumerate(fam):
-        for u in (0.1, 0.6):
+        for u in (0.05, 0.3, 0.55, 0.8, 0.95):
             out.append({'property': PROP, 'seed': core.H('fix05fam', k, u), 'case': c, 'knobs': {}, 'channels': {}, 'tf': 0.3,
                         'segments_cut': [], 'clock': None, 'corrupt': None, 'offline': {'unit': u}})
     i = 0
